@@ -108,6 +108,8 @@ REG["C13"] = dict(
         "c13_topk_3docs": H(module="vec", enc=["VecIndex::search (Uncompressed)", "l2_distance"], sym="3 arbitrary non-NaN distances (incl. infinities, ties, signed zeros), k in 0..4",
                             bound="3 documents, k <= 4; distance function replaced by an arbitrary table (any distance function)"),
         "c13_topk_4docs": H(module="vec", enc=["VecIndex::search (Uncompressed)"], sym="4 arbitrary non-NaN distances, k in 0..5", bound="4 documents, k <= 5"),
+        "c13_topk_5docs": H("thorough", module="vec", enc=["VecIndex::search (Uncompressed)"], sym="5 arbitrary non-NaN distances, k in 0..6", bound="5 documents, k <= 6"),
+        "c13_topk_6docs": H("thorough", module="vec", enc=["VecIndex::search (Uncompressed)"], sym="6 arbitrary non-NaN distances, k in 0..7", bound="6 documents, k <= 7"),
         "c13_empty_query": H(module="vec", enc=["VecIndex::search"], sym="-", bound="empty query vector"),
     },
     assumptions=["crate::simd::l2_distance_simd replaced by a table of arbitrary non-NaN distances: the ranking logic must be right for any distance function; the arithmetic is C38"],
@@ -161,6 +163,8 @@ REG["C37"] = dict(
         "c37_normalize_2_extreme": H("thorough", module="adaptive", enc=["normalize_scores"], sym="2 finite f32, full range", bound="2 scores, any finite value (max - min may overflow)"),
         "c37_normalize_3_moderate": H("experimental", module="adaptive", enc=["normalize_scores"], sym="3 finite f32 with |x| <= 1e30", bound="3 scores"),
         "c37_absolute_cutoff_4": H(module="adaptive", enc=["find_absolute_cutoff"], sym="4 finite scores, list length 0..4, threshold (any f32 incl. NaN/inf), min_results (any usize)", bound="<= 4 scores"),
+        "c37_absolute_cutoff_6": H("thorough", module="adaptive", enc=["find_absolute_cutoff"], sym="6 finite scores, list length 0..6, threshold (any f32 incl. NaN/inf), min_results (any usize)", bound="<= 6 scores"),
+        "c37_absolute_cutoff_8": H("thorough", module="adaptive", enc=["find_absolute_cutoff"], sym="8 finite scores, list length 0..8, threshold (any f32 incl. NaN/inf), min_results (any usize)", bound="<= 8 scores"),
         "c37_dispatch_raw_3": H("experimental", module="adaptive", enc=["find_adaptive_cutoff", "find_absolute_cutoff"], sym="3 finite scores, length 0..3, strategy absolute or relative with an arbitrary f32 parameter, min_results",
                                 bound="<= 3 scores, normalize_scores = false"),
         "c37_dispatch_absolute_2": H("thorough", module="adaptive", enc=["find_adaptive_cutoff", "find_absolute_cutoff"], sym="2 finite scores, length 0..2, arbitrary threshold, min_results", bound="<= 2 scores, absolute strategy through the dispatcher"),
@@ -222,6 +226,8 @@ REG["C11"] = dict(
     harnesses={
         "c11_replay_frame_ids_3": H(module="msearch_api", enc=["Memvid::get_replay_frame_ids"], sym="3 frames: timestamp (any i64) and status each; as_of_frame and as_of_ts (any Option)",
                                     bound="3-frame table; soundness and completeness of the time-travel candidate set"),
+        "c11_replay_frame_ids_4": H("thorough", module="msearch_api", enc=["Memvid::get_replay_frame_ids"], sym="4 frames: timestamp (any i64) and status each; as_of_frame and as_of_ts (any Option)", bound="4-frame table"),
+        "c11_replay_frame_ids_5": H("experimental", module="msearch_api", enc=["Memvid::get_replay_frame_ids"], sym="5 frames: timestamp (any i64) and status each; as_of_frame and as_of_ts (any Option)", bound="5-frame table (does not finish: > 16 GB after 400 s, stopped)"),
     },
     assumptions=["Memvid handle built field by field (no file); std RandomState fixed"],
     out=["the composition inside Memvid::search (intersection with date/sketch candidate sets, Tantivy) — lex-gated monolith, see DESIGN.md finding 3"],
@@ -301,6 +307,7 @@ REG["C16"] = dict(
     cbmc_args=MEMCMP,
     harnesses={
         "c16_parse_cursor": H(module="msearch_helpers", enc=["search::helpers::parse_cursor"], sym="cursor string of 0..3 characters over {digits, space, +, -, x}, present or absent; total_hits any usize", bound="cursor strings up to 3 characters"),
+        "c16_parse_cursor_5": H("thorough", module="msearch_helpers", enc=["search::helpers::parse_cursor"], sym="cursor string of 0..5 characters over {digits, space, +, -, x}, present or absent; total_hits any usize", bound="cursor strings up to 5 characters"),
     },
     assumptions=[],
     out=["the page-slicing loops of the Tantivy and fallback search paths (lex-gated; Tantivy cannot be executed symbolically): only the cursor kernel is decided, the partition property itself is NOT", "cursor strings longer than 3 characters"],
